@@ -12,6 +12,11 @@ EXTRA = [
     'struct A { a @0: f32, b @1: i7, c @2: f64, }\nimpl can for A { id: 3, }' if False else 'struct A { a @0: f32, b @1: i7, c @2: u8, }\nimpl can for A { id: 3, }',
     'struct A { a @0: u64, b @1: u1, }\nimpl can for A { id: 4, }',
     'struct A { d @0: f64, }\nimpl can for A { id: 7, }',
+    # more than 64 bits although every leaf starts below bit 64
+    'struct A { a @0: u32, b @1: u16, c @2: u32, }\nimpl can for A { id: 11, }',
+    'struct A { a @0: u63, b @1: u2, }\nimpl can for A { id: 12, }',
+    # one struct bound to two buses without an alias (two bindings with the same name)
+    'struct A { a @0: u8, }\nimpl can for A { id: 21, bus: "p", }\nimpl can for A { id: 22, bus: "q", }',
     'struct A { a @0: u8, f @1: f32, b @2: i9, }\nimpl can for A { id: 8, }',
     'struct A { a @0: u8, s @1: str, }\nimpl can for A { id: 5, }',
     'struct A { a @0: u8, o @1: Optional[u8], }\nimpl can for A { id: 5, }',
@@ -54,6 +59,8 @@ def check(src):
     dbs = {bus: cantools.database.load_string(txt) for bus, txt in out}
     for i in impls:
         bus = i.fields.get("bus", "default")
+        if bus not in dbs:
+            return {"schema": src, "check": f"no DBC text was returned for bus {bus} (binding {i.name})", "observed": sorted(dbs)}
         msg = [m for m in dbs[bus].messages if m.frame_id == i.fields["id"]]
         if len(msg) != 1 or msg[0].name != i.name:
             return {"schema": src, "check": f"bus file {bus} must contain exactly one message for binding {i.name}"}
@@ -96,8 +103,36 @@ def check_c_size(widths):
     return None
 
 
+def check_c_oversize(src, bits):
+    """C14, C plug-in: a binding whose packed size exceeds 64 bits is never accepted (an error value or an exception are both a failure
+    of the command; Ok is not), whatever kind of field holds the excess"""
+    import fcp_can_c
+    from fcp.verifier import make_general_verifier
+    fcp = get_fcp_from_string('version: "3"\n' + src + "\n", Logger({})).unwrap()
+    v = make_general_verifier()
+    fcp_can_c.Generator().register_checks(v)
+    try:
+        ok = v.verify(fcp).is_ok()
+    except Exception:
+        ok = False
+    if ok and bits > 64:
+        return {"schema": src, "can_c_oversize": bits, "check": "C plug-in accepted a CAN binding of more than 64 bits"}
+    return None
+
+
+C_OVERSIZE = [
+    ('struct I { x @0: u32, y @1: u8, }\nstruct A { a @0: u32, i @1: I, }\nimpl can for A { id: 1, device: "ecu", }', 72),
+    ('enum E { P = 0, Q = 5, }\nstruct A { a @0: u32, b @1: u32, e @2: E, }\nimpl can for A { id: 1, device: "ecu", }', 67),
+    ('struct A { a @0: u32, b @1: [u16, 3], }\nimpl can for A { id: 1, device: "ecu", }', 80),
+]
+
+
 def search(pid, seed, tier, skip):
     if pid == "C14":
+        for src, bits in C_OVERSIZE:
+            f = check_c_oversize(src, bits)
+            if f:
+                return {"failure": f}
         for widths in ([32, 32], [32, 32, 1], [32, 32, 4], [32, 32, 7], [64, 8], [8] * 9, [63, 1], [33, 32], [16, 16, 16, 16, 8]):
             f = check_c_size(widths)
             if f:
@@ -117,6 +152,9 @@ if __name__ == "__main__":
         print(json.dumps(search(sys.argv[2], int(sys.argv[3]), sys.argv[4], sys.argv[5:]), default=str))
     elif cmd == "replay":
         rec = json.loads(sys.argv[2])
-        print(json.dumps({"fails": (check_c_size(rec["widths"]) if rec.get("can_c") else check(rec["schema"])) is not None}))
+        if rec.get("can_c_oversize"):
+            print(json.dumps({"fails": check_c_oversize(rec["schema"], rec["can_c_oversize"]) is not None}))
+        else:
+            print(json.dumps({"fails": (check_c_size(rec["widths"]) if rec.get("can_c") else check(rec["schema"])) is not None}))
     elif cmd == "witness":
         print(json.dumps({"fails": False}))
